@@ -158,6 +158,15 @@ def run_scaled(rng, tier, case):
     if not r.solved:
         case.inconc('not solved: ' + str(r.res)); return
     V = float(r.res.value)
+    # the cost vector alone (costs_only: price samples, robust, SLP) is the cost vector of the problem - also for the scale variable's fix costs
+    try:
+        with env.quiet(), attach.paused():
+            c_only = np.asarray(r.built.portfolio.setup_optim_problem(r.built.prices, r.built.timegrid, costs_only=True), float)
+        cfull = np.asarray(r.op.c, float)
+        case.check('scaled.cost_vector_equals_problem_costs', c_only.shape == cfull.shape and bool(np.allclose(c_only, cfull, rtol=1e-12, atol=0.)), **who,
+                   worst=float(np.max(np.abs(c_only - cfull))) if c_only.shape == cfull.shape and len(cfull) else None)
+    except Exception as e:
+        case.check('scaled.cost_vector_equals_problem_costs', False, **who, error='%s: %s' % (type(e).__name__, str(e)[:160]))
     W = ck.window(sc.get('start'), sc.get('end'))
     dur = float(ck.dt[W].sum())
     special = r.out['special']
